@@ -112,6 +112,20 @@ def run(F, R):
         bvv = b_ctx.bv
         nx = [bi for bi, t in bvv.calls() if lib.callee_is(t, "futures::StreamExt::next")]
         R.check("C13-R4", "forwarder-drains", len(nx) == 1 and bool(bvv.sccs()), "forwarder loops on recv.next() until the channel closes", "the forwarder does not drain the progress channel")
+        # every value taken from the channel is forwarded: the channel is read in one place only, and what is emitted is that read's payload
+        other_reads = [lib.norm(t.get("callee") or "") for _, t in bvv.calls() if t.get("name") in ("try_recv", "try_next", "poll_next", "poll_next_unpin", "next_many", "ready_chunks", "now_or_never") ]
+        ys_ = [(bi, t) for bi, t in bvv.calls() if lib.norm(t.get("callee") or "") in ("async_generator::Yield::<I>::yield_", "async_generator::Yield::<I>::yield_all")]
+        pay_ok = False
+        det_ = ""
+        if len(ys_) == 1:
+            ev_ = bvv.trace_op(ys_[0][1]["args"][1])
+            pc_ = [x for x in walk(ev_) if x[0] == "agg" and x[2] and x[2].endswith("InstallProgressChange")]
+            if pc_:
+                alts_ = lib.alts(pc_[0][3][0])
+                det_ = " | ".join(terms.render(bvv, a_, W, {})[:80] for a_ in alts_)
+                pay_ok = len(alts_) == 1 and alts_[0][0] == "field" and lib.strip_refs(alts_[0][1])[0] == "downcast" and lib.strip_refs(alts_[0][1])[2] == "Some" and (lib.head_call(alts_[0]) or "").endswith("StreamExt::next")
+        R.check("C13-R4", "forwarder-forwards-every-value", not other_reads and pay_ok, "each received progress value is the one emitted: " + det_,
+                "the forwarder can take a progress value off the channel without emitting it (other reads: %s; emitted: %s)" % (other_reads, det_))
         # observer holds the only sender
         hv = a_ctx.parent.bv
         mk = [(bi, t) for bi, t in hv.calls() if lib.norm(t.get("callee") or "").endswith("mpsc::channel")]
@@ -146,6 +160,36 @@ def run(F, R):
                 R.check("C13-R5", "flushing-op:" + key, bool(later) and not esc, "%s followed by a flush on every path" % t["name"],
                         "`%s` queues the item without waiting for the consumer and no flush follows on every path: code after the emission can run before the event was taken" % t["name"], lib.loc(bv, bi))
     R.floor("C13-R5", "sink operations in the emission helpers", n_ops, 3)
+
+    # ---------------------------------------------------------------- R6 the generator is not "terminated" while its task still runs
+    R.rule("C13-R6", "FusedStream::is_terminated of the generator can only answer true when the task itself is terminated (a consumer that stops polling on is_terminated must not abandon a running task before its completion was delivered)")
+    it = [b for b in c.bodies if b.get("item") == "is_terminated" and (b.get("impl_self") or "").startswith("async_generator::Generator")]
+    if R.floor("C13-R6", "FusedStream::is_terminated for Generator", len(it), 1):
+        iv = BV.of(it[0])
+        te = [(a, b) for (a, b, tr) in iv.bool_edges(lambda t: t[0] == "call" and lib.norm(t[1]).endswith("is_terminated") and lib.apath(t).endswith(".task)")) if tr]
+        # blocks reachable without crossing "task is terminated": every value given to the result there must be `false`
+        seen_ = set()
+        st_ = [0]
+        cut_ = set(te)
+        while st_:
+            a_ = st_.pop()
+            if a_ in seen_:
+                continue
+            seen_.add(a_)
+            for b_ in iv.succ[a_]:
+                if (a_, b_) not in cut_:
+                    st_.append(b_)
+        bad_ = []
+        for (bi, si_, kind, x) in iv.defs.get(0, []):
+            if bi in seen_:
+                v_ = lib.term_const(c, strip(iv._trace_rv(x, None, 0))) if kind == "rv" else None
+                # a result that is itself the answer of task.is_terminated() is fine too
+                tm_ = strip(iv._trace_rv(x, None, 0)) if kind == "rv" else ("call", (x.get("callee") or ""), [iv.trace_op(a__) for a__ in x.get("args", [])], bi)
+                is_task = tm_[0] == "call" and lib.norm(tm_[1]).endswith("is_terminated") and lib.apath(tm_).endswith(".task)")
+                if v_ != 0 and not is_task:
+                    bad_.append(lib.loc(iv, bi))
+        R.check("C13-R6", "terminated-implies-task-terminated", bool(te) and not bad_, "is_terminated() == true only behind task.is_terminated() == true",
+                "is_terminated() can answer true while the task has not terminated (result set at %s without testing the task)" % bad_)
 
 
 def _mentions(x, l):
